@@ -1,3 +1,4 @@
+import asyncio
 import copy
 import datetime
 
@@ -95,6 +96,6 @@ async def post_event(
         logger.warning(f"Failed to post an event. Ignoring and continuing. "
                        f"Message: {e.message}. "
                        f"Event: type={type!r}, reason={reason!r}, message={message!r}.")
-    except aiohttp.ClientOSError:
+    except (aiohttp.ClientConnectionError, asyncio.TimeoutError):  # incl. ClientOSError & timeouts.
         logger.warning(f"Failed to post an event. Ignoring and continuing. "
                        f"Event: type={type!r}, reason={reason!r}, message={message!r}.")
